@@ -37,6 +37,9 @@ def parseOp? (tok : String) : Option Op :=
       pure (Op.setSlice (← t.toNat?) ⟨← parseOptInt? a, ← parseOptInt? b, ← parseOptInt? c⟩ (← parseElems? els))
   | ["iop", t, code, k] => do pure (Op.iop (← t.toNat?) (← code.toNat?) (← k.toInt?))
   | ["op", t, code, k] => do pure (Op.op (← t.toNat?) (← code.toNat?) (← k.toInt?))
+  | ["iops", t, v, code] => do pure (Op.iopSeq (← t.toNat?) (← v.toNat?) (← code.toNat?))
+  | ["ops", t, v, code] => do pure (Op.opSeq (← t.toNat?) (← v.toNat?) (← code.toNat?))
+  | ["un", t, code] => do pure (Op.unary (← t.toNat?) (← code.toNat?))
   | ["cat", ts, w] => do pure (Op.concat (← parseNatList? ts) (← w.toNat?))
   | _ => none
 
